@@ -852,10 +852,66 @@ def rule_tokbnd(c: Ctx) -> RuleResult:
     if n_disp < 3:
         raise AnchorError(f"only {n_disp} render-rule dispatch sites found")
     n_sites = 0
+    from ..facts import analyse
+    from .prog_rules import contract_call_kills
+    fcache: dict[Func, tuple] = {}
+
+    def entry_of(f: Func, depth: int = 0) -> Facts | None:
+        """Entry facts of f: the render-rule contract, or - for a private helper - what every call site establishes between its
+        integer parameters and the lengths of its list parameters (derived contract, validated by construction)."""
+        if f in rr and len(f.node.args.args) >= 3:
+            z = Facts()
+            z.add(f.node.args.args[2].arg, f"len({f.node.args.args[1].arg})", -1)
+            return z
+        if depth > 2 or f.cls is not None and not f.name.startswith("_"):
+            return None
+        sites = [cs for cs in c.cg.callers.get(f, []) if cs.kind in ("direct", "method")]
+        if not sites or any(cs.kind.startswith("dispatch") for cs in c.cg.callers.get(f, [])):
+            return None
+        params = [a.arg for a in f.node.args.posonlyargs + f.node.args.args]
+        acc: Facts | None = None
+        for cs in sites:
+            cfg_c, res_c = facts_of(cs.caller, depth + 1)
+            e1 = Facts()
+            amap = {}
+            for pn in params:
+                a = c.eff.arg_for_param(cs, f, pn)
+                if a is not None:
+                    amap[pn] = a
+            for nd in cfg_c.owner(cs.node):
+                z = res_c.get(nd.id)
+                if z is None:
+                    continue
+                z.close()
+                for pi, ai in amap.items():
+                    li = lin(ai)
+                    if li is None or li[0] is None:
+                        continue
+                    for pq, aq in amap.items():
+                        if pq == pi:
+                            continue
+                        bound = f"len({U(aq)})"
+                        k = z.d.get((T(li[0]), bound))
+                        if k is not None:
+                            e1.add(pi, f"len({pq})", k - li[1])
+            acc = e1 if acc is None else acc.join(e1)
+        return acc if acc is not None and acc.d else None
+
+    def facts_of(f: Func, depth: int = 0):
+        if f not in fcache:
+            cfg_ = c.cfg(f)
+            fcache[f] = (cfg_, analyse(cfg_, entry_of(f, depth), contract_call_kills(c, f), c.bool_summary))
+        return fcache[f]
+
     for f in sorted(c.cg.api_phase(), key=lambda x: x.qual):
         sc = c.tf.scope(f)
         subs = [n for n in own_nodes(f.node) if isinstance(n, ast.Subscript) and not isinstance(n.slice, ast.Slice)
                 and isinstance(n.ctx, ast.Load) and sc.type(n.value) in LISTS and lin(n.slice) is not None and lin(n.slice)[0] is not None]
+        # a Sequence[Token] parameter indexed by an int parameter
+        seqp = [a.arg for a in f.node.args.posonlyargs + f.node.args.args if a.annotation is not None and "Token" in U(a.annotation)
+                and any(w in U(a.annotation) for w in ("Sequence", "list", "List"))]
+        subs += [n for n in own_nodes(f.node) if isinstance(n, ast.Subscript) and not isinstance(n.slice, ast.Slice) and isinstance(n.ctx, ast.Load)
+                 and isinstance(n.value, ast.Name) and n.value.id in seqp and n not in subs and lin(n.slice) is not None and lin(n.slice)[0] is not None]
         # subscripts through Sequence[Token] parameters of render rules
         if f in rr and len(f.node.args.args) >= 3:
             tp = f.node.args.args[1].arg
@@ -864,14 +920,8 @@ def rule_tokbnd(c: Ctx) -> RuleResult:
         if not subs:
             continue
         r.functions += 1
-        entry = None
-        if f in rr and len(f.node.args.args) >= 3:
-            entry = Facts()
-            entry.add(f.node.args.args[2].arg, f"len({f.node.args.args[1].arg})", -1)
-        cfg = c.cfg(f)
-        from ..facts import analyse
-        from .prog_rules import contract_call_kills
-        res = analyse(cfg, entry, contract_call_kills(c, f), c.bool_summary)
+        entry = entry_of(f)
+        cfg, res = facts_of(f)
         bounds = Bounds(c, f)
         for s_ in sorted(subs, key=lambda x: (x.lineno, x.col_offset)):
             n_sites += 1
@@ -882,7 +932,8 @@ def rule_tokbnd(c: Ctx) -> RuleResult:
                 continue
             how = _by_facts(c, f, cfg, res, bounds, s_)
             if how:
-                r.add(key, where, f.short, U(s_), "discharged", how + (" [render-rule contract idx < len(tokens)]" if entry is not None else ""))
+                r.add(key, where, f.short, U(s_), "discharged", how + ((" [render-rule contract idx < len(tokens)]" if f in rr else
+                                                                       " [contract derived from the call sites]") if entry is not None else ""))
                 continue
             if _record_index(f, s_, bounds):
                 r.add(key, where, f.short, U(s_), "exempt", RECORD_REASON)
